@@ -332,7 +332,7 @@ def run(chk, R, tier, seed):
               "dateless lookup repeated after the default date moved"):
         chk.require(c)
     prelude = [{"e": M(MONEY, "register_currency", ["s", c])} for c in CODES]
-    n = 1200 if tier == "quick" else 40000
+    n = 3000 if tier == "quick" else 40000
     done = 0
     while done < n:
         m = min(n - done, 8000)
